@@ -614,23 +614,24 @@ func setNthValue(ctx context.Context, scope *ReferenceScope, partition Partition
 			}
 
 			recordIdx := partition[i]
-			if v, ok := valueCache[recordIdx]; ok {
-				val = v
-			} else {
+			v, ok := valueCache[recordIdx]
+			if !ok {
 				anScope.Records[0].recordIndex = recordIdx
 				p, err := Evaluate(ctx, anScope, expr.Args[0])
 				if err != nil {
 					return nil, err
 				}
 				valueCache[recordIdx] = p
-				val = p
+				v = p
 			}
-			if expr.IgnoreNulls() && value.IsNull(val) {
+			if expr.IgnoreNulls() && value.IsNull(v) {
 				continue
 			}
 
 			count++
 			if count == n {
+				// the frame has an n-th value; a frame with fewer values yields NULL
+				val = v
 				break
 			}
 		}
